@@ -174,7 +174,8 @@ impl RK4 {
             yt.copy_from_slice(&y);
 
             // Update solution
-            x += h;
+            // The last step lands on xend itself: x + (xend - x) can miss it by a rounding error
+            x = if last { xend } else { x + h };
             for i in 0..n {
                 y[i] += h * (B1 * k1[i] + B2 * k2[i] + B3 * k3[i] + B4 * k4[i]);
             }
